@@ -611,7 +611,8 @@ func init() {
 			if ops < 10000 {
 				u = append(u, fmt.Sprintf("bank operations %d < 10000", ops))
 			}
-			for _, k := range []string{"arena-address-reused-after-close", "retained-verifications", "banks-closed", "competitor-runs"} {
+			// competitor-runs is reported but is no floor: it depends on hook call sites that an edited tree may lack
+			for _, k := range []string{"arena-address-reused-after-close", "retained-verifications", "banks-closed"} {
 				if a.C(k) < 1000 {
 					u = append(u, fmt.Sprintf("%s=%d < 1000", k, a.C(k)))
 				}
